@@ -180,11 +180,14 @@ def minimise(prop, scn, sig, budget_s=25.0, max_runs=400):
     # 1. ddmin over steps
     n = 2
     steps = cur["steps"]
+    keep = getattr(prop, "must_keep_step", lambda st: False)
     while len(steps) >= 2:
         chunk = max(1, len(steps) // n)
         removed = False
         for i in range(0, len(steps), chunk):
-            cand_steps = steps[:i] + steps[i + chunk:]
+            cand_steps = steps[:i] + [st for st in steps[i:i + chunk] if keep(st)] + steps[i + chunk:]
+            if len(cand_steps) == len(steps):
+                continue
             cand = dict(cur)
             cand["steps"] = cand_steps
             if cand_steps and ok(cand):
@@ -314,6 +317,8 @@ def main(argv=None):
     ap.add_argument("--workers", type=int, default=int(os.environ.get("VERIF_WORKERS", "0") or 0))
     ap.add_argument("--units", type=int, default=0)
     ap.add_argument("--budget-s", type=float, default=0)
+    ap.add_argument("--scale", type=float, default=float(os.environ.get("VERIF_SCALE", "1") or 1),
+                    help="multiply the tier's planned number of work units (for matrix / smoke runs)")
     ap.add_argument("--replay")
     ap.add_argument("--no-evidence", action="store_true")
     ap.add_argument("--dump-unit", type=int, default=None)
@@ -338,7 +343,7 @@ def main(argv=None):
 
     tier = args.tier
     plan = prop.plan(tier)
-    units = args.units or plan["units"]
+    units = args.units or max(1, int(plan["units"] * args.scale))
     budget = args.budget_s or plan["budget_s"]
     workers = args.workers or min(16, os.cpu_count() or 1)
     block = plan.get("block", 50)
